@@ -588,7 +588,10 @@ func js(v VS) string { b, _ := json.Marshal(v); return string(b) }
 
 func sv(s string) VS { return VS{T: "s", V: hx([]byte(s))} }
 
-var metaStrings = []string{"", "1", "-1", "0", "true", "false", "yes", "y", "1s", "5m", "1h30m", "-5s", "1.5h", "300", "9223372036854775807", "9223372036854775808", "-9223372036854775808", "9223372037", "1e3", "abc", " 1s ", "1s,2s", "1s, 2m ,,3", ",", ",,", "a,b,c", "1Ki", "10Mi", "1G", "1.5Gi", "-1", "1e30", "9223372036854775807Ei", "1KiB", "0x10", "١", "\x00", "\xff\xfe", "1 ", "+1", "1_000", "NaN", "Inf", "2024-01-01T00:00:00Z", "2024-01-01T00:00:00.123456789+01:00", "P1D", "1ns", "1µs", "1us", strings.Repeat("9", 400), strings.Repeat("1s,", 300)}
+// exponent forms: k8s resource.ParseQuantity computes 10^|exponent| exactly (seconds at 10^7, "forever" at 10^9)
+var expBombs = []string{"1e-999999999", "1e999999999", "1E1000000000000", "1e-10000000", "9e99999999Ki", "1e+2147483648", "1e-2147483649", "0e999999999", "1.5E-999999999", "1e1001", "1e-1001", "1e1000", "1e-1000", "5E", "5Ei", "5e", "5e+", "1e٣"}
+
+var metaStrings = append(expBombs, "", "1", "-1", "0", "true", "false", "yes", "y", "1s", "5m", "1h30m", "-5s", "1.5h", "300", "9223372036854775807", "9223372036854775808", "-9223372036854775808", "9223372037", "1e3", "abc", " 1s ", "1s,2s", "1s, 2m ,,3", ",", ",,", "a,b,c", "1Ki", "10Mi", "1G", "1.5Gi", "-1", "1e30", "9223372036854775807Ei", "1KiB", "0x10", "١", "\x00", "\xff\xfe", "1 ", "+1", "1_000", "NaN", "Inf", "2024-01-01T00:00:00Z", "2024-01-01T00:00:00.123456789+01:00", "P1D", "1ns", "1µs", "1us", strings.Repeat("9", 400), strings.Repeat("1s,", 300))
 
 func genMeta(r *runner) {
 	str := func() VS { return sv(metaStrings[r.rnd.Intn(len(metaStrings))]) }
@@ -954,8 +957,11 @@ func hookLine(ht, v string) string {
 			}
 		}
 	case "byteSize", "byteSizePtr":
-		_, err := resource.ParseQuantity(v)
-		q = err == nil
+		// the oracle must not itself run resource.ParseQuantity on an exponent bomb
+		if !hugeExponent(v) {
+			_, err := resource.ParseQuantity(v)
+			q = err == nil
+		}
 	}
 	return "hook f=string t=" + t + " empty=" + bit(empty) + " pd=" + bit(pd) + " pi=" + bit(pi) + " cast=1 q=" + bit(q)
 }
@@ -1058,4 +1064,26 @@ func valOf(x any) string {
 		return "l[" + strings.Join(parts, ",") + "]"
 	}
 	return "s"
+}
+
+// hugeExponent: the value ends in a decimal exponent beyond ±1000 (what the ByteSize hook refuses since its fix).
+func hugeExponent(v string) bool {
+	i := strings.LastIndexAny(v, "eE")
+	if i < 0 || i == len(v)-1 {
+		return false
+	}
+	d := v[i+1:]
+	if d[0] == '+' || d[0] == '-' {
+		d = d[1:]
+	}
+	if d == "" {
+		return false
+	}
+	for _, c := range d {
+		if c < '0' || c > '9' {
+			return false
+		}
+	}
+	n, err := strconv.Atoi(d)
+	return err != nil || n > 1000
 }
